@@ -110,6 +110,10 @@ func genFault(r *hx.Rand, a *Assets, where []location) (*Assets, string) {
 
 type location struct{ Flow, Node int }
 
+// set when an engine call did not return: the goroutine that runs it cannot be stopped, so the driver
+// records the failure, writes its results and exits instead of going on next to a runaway computation
+var hung bool
+
 // runHistory continues a started history: either with generated ops (fixed == nil) or with the given ones
 func runHistory(prop string, r *hx.Rand, h *History, w *world, first *CallObs, a *Assets, res *hx.Result, fixed []Op) []*CallObs {
 	var calls []*CallObs
@@ -130,6 +134,13 @@ func runHistory(prop string, r *hx.Rand, h *History, w *world, first *CallObs, a
 		}
 	}
 	runOracle(0, first)
+	if first.Kind == 5 {
+		hung = true
+		if prop != "C05" {
+			res.Fail(prop+":hang", historyJSON(h), "engine call did not return within the watchdog")
+		}
+		return calls
+	}
 	s := first.Session
 	cur := a
 	alive := first.Kind == 0 || first.Kind == 1
@@ -145,6 +156,9 @@ func runHistory(prop string, r *hx.Rand, h *History, w *world, first *CallObs, a
 			s = s2
 			calls = append(calls, obs)
 			runOracle(len(calls)-1, obs)
+			if obs.Kind == 5 {
+				hung = true
+			}
 			if obs.Kind != 0 && obs.Kind != 1 {
 				alive = false
 			}
@@ -192,6 +206,12 @@ func runHistory(prop string, r *hx.Rand, h *History, w *world, first *CallObs, a
 		s = s2
 		calls = append(calls, obs)
 		runOracle(len(calls)-1, obs)
+		if obs.Kind == 5 {
+			hung = true
+			if prop == "C01" {
+				res.Fail("C01:hang", historyJSON(h), "engine call did not return within the watchdog")
+			}
+		}
 		if obs.Kind != 0 && obs.Kind != 1 {
 			alive = false
 		}
@@ -343,6 +363,9 @@ func main() {
 		}
 		if calls := runHistory(prop, r, h, w, first, a, res, nil); calls != nil {
 			emit(i, h, calls)
+		}
+		if hung {
+			break
 		}
 	}
 	flush()
